@@ -14,10 +14,16 @@
     successful ([C15_successful_integration_run]).  [C15_expected_succ] (ExpectedFacts.v) says
     whether the tree tests that flag (SuccChecked, after fixes/C15-integrator-failure.diff) or not
     (SuccUnchecked, the snapshot: recorded finding c15-integrator-failure-unchecked).
+    [xs_run F tol rel y0 y ok] (SteadyNan.v) is the same loop over IEEE values [xq] = finite | +-inf |
+    NaN: the buffers of the real solver can hold NaN (a rate law that left its domain) and the relative
+    change of a pool that stays exactly 0 is 0/0.  [xstep_cmp tol rel a b] is the comparison of the
+    norm with the tolerance in one step: [Some NLt] below, [Some NEq], [Some NGt], [Some NUndef] when
+    the norm is NaN (then every comparison is False).  On finite buffers [xs_run] is [ss_run_s]
+    ([C15_finite_buffers_run]), so the theorems about [ss_run]/[ss_run_s] describe the code there.
     Theorems that mention [R], [norm2], [Q2R] use Coq.Reals (classical real-number axioms). *)
 From Coq Require Import Reals QArith Qreals Qabs ZArith NArith List Bool.
 Import ListNotations.
-From Steady Require Import SteadyLoop GenSteadyFacts ExpectedFacts SteadyLoopProofs SteadyHistProofs Relax SteadyProps.
+From Steady Require Import SteadyLoop SteadyNan GenSteadyFacts ExpectedFacts SteadyLoopProofs SteadyHistProofs SteadyNanProofs Relax SteadyProps.
 
 Theorem C15_facts_pinned :
   gen_ss_facts = mkSSFacts 100%Z 1000%N CmpLt NormL2 PrevCopy RelDivPrev ExhaustFail C15_expected_succ true
@@ -222,6 +228,116 @@ Proof.
            (ex_intro _ (1 # 1000000)%Q (ex_intro _ stuck_traj (ex_intro _ stuck_ok unchecked_witness)))).
 Qed.
 Print Assumptions C15_unchecked_failure_refuted.
+
+(** ** buffers that hold inf / NaN: the loop over IEEE values
+
+    on finite buffers the IEEE loop is the rational loop of the theorems above *)
+Theorem C15_finite_buffers_run :
+  forall (tol : Q) (rel : bool) (y0 : vec) (y : nat -> vec) (ok : nat -> bool),
+    xs_run gen_ss_facts tol rel (fin y0) (fun n => fin (y n)) ok
+    = xs_of (ss_run_s gen_ss_facts tol rel y0 y ok).
+Proof. exact (p_finite_run C15_facts_pinned). Qed.
+Print Assumptions C15_finite_buffers_run.
+
+(** FULL loop specification on arbitrary IEEE buffers and success flags: a state is reported steady
+    ONLY IF the norm of its step is a NUMBER strictly below the tolerance ([Some NLt]: not NaN, not
+    inf), it is the least such step, and every integration step up to it succeeded; a failing step
+    before that gives IntegrationFailure; NoSteadyState exactly when all 1000 steps succeed and none
+    has such a norm -- in particular steps whose norm is undefined count as NOT converged *)
+Theorem C15_success_needs_a_number_below_tolerance :
+  forall (tol : Q) (rel : bool) (y : nat -> xvec) (ok : nat -> bool),
+    (forall n, length (y n) = length (y 0%nat)) ->
+    let c n := xstep_cmp tol rel (y n) (y (S n)) in
+    (forall t v, xs_run gen_ss_facts tol rel (y 0%nat) y ok = XSteady t v ->
+       exists n, (n < 1000)%nat /\ c n = Some NLt /\ (forall m, (m <= n)%nat -> ok (S m) = true)
+                 /\ (forall m, (m < n)%nat -> c m <> Some NLt)
+                 /\ (t == inject_Z (100 * Z.of_nat (S n)))%Q /\ v = y (S n))
+    /\ (forall n, (n < 1000)%nat -> c n = Some NLt -> (forall m, (m <= n)%nat -> ok (S m) = true) ->
+          (forall m, (m < n)%nat -> c m <> Some NLt) ->
+          exists t, xs_run gen_ss_facts tol rel (y 0%nat) y ok = XSteady t (y (S n))
+                    /\ (t == inject_Z (100 * Z.of_nat (S n)))%Q)
+    /\ (xs_run gen_ss_facts tol rel (y 0%nat) y ok = XIntegFail
+        <-> exists n, (n < 1000)%nat /\ ok (S n) = false
+                      /\ (forall m, (m < n)%nat -> ok (S m) = true /\ c m <> Some NLt))
+    /\ (xs_run gen_ss_facts tol rel (y 0%nat) y ok = XNoSteady
+        <-> forall m, (m < 1000)%nat -> ok (S m) = true /\ c m <> Some NLt)
+    /\ xs_run gen_ss_facts tol rel (y 0%nat) y ok <> XShape
+    /\ xs_run gen_ss_facts tol rel (y 0%nat) y ok <> XUnknownFacts.
+Proof. exact (p_nan_loop_spec C15_facts_pinned). Qed.
+Print Assumptions C15_success_needs_a_number_below_tolerance.
+
+(** absence is reported as failure when the criterion cannot be evaluated: a norm that is NaN in
+    every step of the budget yields the failure value (both norms) *)
+Theorem C15_undefined_norm_fails :
+  forall (tol : Q) (rel : bool) (y : nat -> xvec) (ok : nat -> bool),
+    (forall n, length (y n) = length (y 0%nat)) ->
+    (forall m, (m < 1000)%nat -> ok (S m) = true /\ xstep_cmp tol rel (y m) (y (S m)) = Some NUndef) ->
+    xs_run gen_ss_facts tol rel (y 0%nat) y ok = XNoSteady.
+Proof. exact (p_undefined_norm_fails C15_facts_pinned). Qed.
+Print Assumptions C15_undefined_norm_fails.
+
+(** ... source 1: relative norm and a pool [k] that is exactly 0 in every buffer (0/0), whatever the
+    other pools do and whatever the tolerance: never a success (so never a wrong one) *)
+Theorem C15_empty_pool_relative_norm_fails :
+  forall (tol : Q) (y : nat -> xvec) (ok : nat -> bool) (k : nat),
+    (forall n, length (y n) = length (y 0%nat)) -> (forall n, ok n = true) ->
+    (k < length (y 0%nat))%nat -> (forall n, nth k (y n) (XFin 1) = XFin 0) ->
+    xs_run gen_ss_facts tol true (y 0%nat) y ok = XNoSteady.
+Proof. exact (p_empty_pool_rel_fails C15_facts_pinned). Qed.
+Print Assumptions C15_empty_pool_relative_norm_fails.
+
+(** ... source 2: every returned buffer holds a NaN (a rate law left its domain and the solver still
+    reports success): the failure value, never a "steady state" that contains NaN *)
+Theorem C15_nan_state_fails :
+  forall (tol : Q) (rel : bool) (y : nat -> xvec) (ok : nat -> bool),
+    (forall n, length (y n) = length (y 0%nat)) -> (forall n, ok n = true) ->
+    (forall n, (n < 1000)%nat -> exists k, (k < length (y 0%nat))%nat /\ nth k (y (S n)) (XFin 1) = XNaN) ->
+    xs_run gen_ss_facts tol rel (y 0%nat) y ok = XNoSteady.
+Proof. exact (p_nan_state_fails C15_facts_pinned). Qed.
+Print Assumptions C15_nan_state_fails.
+
+(** Regression (seeded change C15-4): the SAME loop with the test in the early-continue form
+    [if norm >= tolerance: y1 = y2; t += step_size; continue] followed by an unconditional success
+    return (extracted fact CmpNotGe).  (1) It is the tree's loop on every run in which no norm is
+    undefined; (2) a NaN norm in the first step is reported as a STEADY STATE at t = 100, whatever the
+    tolerance; (3) witnesses: relative norm, a pool on its way 0 -> 43 -> 50 next to a pool that stays
+    0: "steady" [43; 0] at t = 100 (the tree: NoSteadyState); absolute norm, state [5; NaN] "steady" at
+    t = 100 (the tree: NoSteadyState).  The extractor tells the forms apart: [C15_facts_pinned]. *)
+Theorem C15_fallthrough_on_nan_refuted :
+  let G := mkSSFacts 100%Z 1000%N CmpNotGe NormL2 PrevCopy RelDivPrev ExhaustFail SuccChecked true in
+  let T := mkSSFacts 100%Z 1000%N CmpLt NormL2 PrevCopy RelDivPrev ExhaustFail SuccChecked true in
+  (forall (tol : Q) (rel : bool) (y : nat -> xvec) (ok : nat -> bool),
+     (forall m, (m < 1000)%nat -> xstep_cmp tol rel (y m) (y (S m)) <> Some NUndef) ->
+     xs_run G tol rel (y 0%nat) y ok = xs_run T tol rel (y 0%nat) y ok)
+  /\ (forall (tol : Q) (rel : bool) (y : nat -> xvec) (ok : nat -> bool),
+       (forall n, length (y n) = length (y 0%nat)) -> ok 1%nat = true ->
+       xstep_cmp tol rel (y 0%nat) (y 1%nat) = Some NUndef ->
+       exists t, xs_run G tol rel (y 0%nat) y ok = XSteady t (y 1%nat) /\ (t == inject_Z 100)%Q)
+  /\ (xstep_cmp (1 # 1000000) true (empty_pool_traj 0) (empty_pool_traj 1) = Some NUndef
+      /\ xs_run G (1 # 1000000) true (empty_pool_traj 0) empty_pool_traj all_ok = XSteady 100 [XFin 43; XFin 0]
+      /\ xs_run T (1 # 1000000) true (empty_pool_traj 0) empty_pool_traj all_ok = XNoSteady
+      /\ xs_run G (1 # 1000000) false (nan_state_traj 0) nan_state_traj all_ok = XSteady 100 [XFin 5; XNaN]
+      /\ xs_run T (1 # 1000000) false (nan_state_traj 0) nan_state_traj all_ok = XNoSteady).
+Proof. exact (conj p_fallthrough_agrees (conj p_fallthrough_first_step fallthrough_witness)). Qed.
+Print Assumptions C15_fallthrough_on_nan_refuted.
+
+(** non-vacuity of the IEEE-loop theorems: the two witness trajectories meet the hypotheses of
+    [C15_empty_pool_relative_norm_fails] / [C15_nan_state_fails], and a finite relaxation is reported
+    steady by the IEEE loop at t = 800 *)
+Example C15_nan_nonvacuous :
+  ((forall n, length (empty_pool_traj n) = length (empty_pool_traj 0))
+   /\ (forall n, nth 1 (empty_pool_traj n) (XFin 1) = XFin 0)
+   /\ (forall n, length (nan_state_traj n) = length (nan_state_traj 0))
+   /\ (forall n, exists k, (k < length (nan_state_traj 0))%nat /\ nth k (nan_state_traj (S n)) (XFin 1) = XNaN))
+  /\ xobs_of (xs_run gen_ss_facts (1 # 100) false (fin (demo_traj 0)) (fun n => fin (demo_traj n)) all_ok)
+     = ObsSteady (800 # 1).
+Proof.
+  exact (conj nan_traj_shapes
+           (eq_ind_r (fun F => xobs_of (xs_run F (1 # 100) false (fin (demo_traj 0)) (fun n => fin (demo_traj n)) all_ok)
+                               = ObsSteady (800 # 1))
+                     demo_steady_x (proj1 C15_facts_pinned))).
+Qed.
+Print Assumptions C15_nan_nonvacuous.
 
 (** ** histories of one Simulator: simulate / simulate_time_course / simulate_to_steady_state in any
     order and number, then get_result.  [OpSimulate r] / [OpSteady r] carry what the integrator
